@@ -51,22 +51,14 @@ Theorem int_len_bound :
   (forall z, - 2 ^ 63 <= z < 2 ^ 63 -> zlen (print_signed z) <= c19_kbytes_i64) /\
   (forall z, zlen (print_pointer z) <= c19_kbytes_ptr) /\ c19_kbytes_ptr = 2 * c19_sizeof_ptr + 2.
 Proof.
-  assert (K16 : 5 <= c19_kbytes_u16) by (vm_compute; discriminate).
-  assert (K16s : 6 <= c19_kbytes_i16) by (vm_compute; discriminate).
-  assert (K32 : 10 <= c19_kbytes_u32) by (vm_compute; discriminate).
-  assert (K32s : 11 <= c19_kbytes_i32) by (vm_compute; discriminate).
-  assert (K64 : 20 <= c19_kbytes_u64) by (vm_compute; discriminate).
-  assert (K64s : 20 <= c19_kbytes_i64) by (vm_compute; discriminate).
-  assert (Kp : 18 <= c19_kbytes_ptr) by (vm_compute; discriminate).
   repeat split.
-  - intros z Hz. pose proof (print_unsigned_len 5 z ltac:(lia) ltac:(simpl; lia)). simpl in H. lia.
-  - intros z Hz. pose proof (print_signed_len 5 z ltac:(lia) ltac:(simpl; lia)). simpl in H. lia.
-  - intros z Hz. pose proof (print_unsigned_len 10 z ltac:(lia) ltac:(simpl; lia)). simpl in H. lia.
-  - intros z Hz. pose proof (print_signed_len 10 z ltac:(lia) ltac:(simpl; lia)). simpl in H. lia.
-  - intros z Hz. pose proof (print_unsigned_len 20 z ltac:(lia) ltac:(simpl; lia)). simpl in H. lia.
-  - intros z Hz. pose proof (print_signed_len 19 z ltac:(lia) ltac:(simpl; lia)). simpl in H. lia.
-  - intros z. pose proof (print_pointer_len z). lia.
-  - vm_compute. reflexivity.
+  - intros z Hz. apply (print_unsigned_len' 5 z (2 ^ 16)); [lia|vm_compute; discriminate|vm_compute; discriminate|exact Hz].
+  - intros z Hz. apply (print_signed_len' 5 z (- 2 ^ 15) (2 ^ 15)); [lia|vm_compute; reflexivity|vm_compute; discriminate|vm_compute; discriminate|exact Hz].
+  - intros z Hz. apply (print_unsigned_len' 10 z (2 ^ 32)); [lia|vm_compute; discriminate|vm_compute; discriminate|exact Hz].
+  - intros z Hz. apply (print_signed_len' 10 z (- 2 ^ 31) (2 ^ 31)); [lia|vm_compute; reflexivity|vm_compute; discriminate|vm_compute; discriminate|exact Hz].
+  - intros z Hz. apply (print_unsigned_len' 20 z (2 ^ 64)); [lia|vm_compute; discriminate|vm_compute; discriminate|exact Hz].
+  - intros z Hz. apply (print_signed_len' 19 z (- 2 ^ 63) (2 ^ 63)); [lia|vm_compute; reflexivity|vm_compute; discriminate|vm_compute; discriminate|exact Hz].
+  - intros z. pose proof (print_pointer_len z). assert (18 <= c19_kbytes_ptr) by (vm_compute; discriminate). lia.
 Qed.
 
 Theorem no_extra_chars :
